@@ -87,6 +87,9 @@ AngleOK(e, obs) ==
 
 \* A scaling by ARBITRARY factors (float runs), read off the same way: while the map in force has no linear part yet, the
 \* observed images of the basis vectors are the factors themselves (e.a.sv4, in 1/10000), on the diagonal and nothing else.
+\* exactly no linear part yet (a rotation by a hundredth of a degree passes IdLin's rounding tolerance, and a scaling would
+\* amplify what is left of it beyond the tolerance below)
+IdLin0(obs) == \A i \in 1..3 : \A k \in 1..3 : LinCol(obs, i)[k] = (IF i = k THEN 10000 ELSE 0)
 ScaleOK(e, obs) ==
   \A i \in 1..3 : \A k \in 1..3 : Abs(LinCol(obs, i)[k] - (IF i = k THEN e.a.sv4[i] ELSE 0)) <= 2
 HasFactors(e) == e.a.sv4 # <<0, 0, 0>>
@@ -116,7 +119,7 @@ Holds(c, e, M) ==
     [] c = "C13_Angle" ->
          (e.call = "rotate" /\ e.out = "ok" /\ IdLin(O.obs)) => AngleOK(e, obs)
     [] c = "C13_Scale" ->
-         (e.call = "scale" /\ e.out = "ok" /\ HasFactors(e) /\ IdLin(O.obs)) => ScaleOK(e, obs)
+         (e.call = "scale" /\ e.out = "ok" /\ HasFactors(e) /\ IdLin0(O.obs)) => ScaleOK(e, obs)
 
 Ante(c, e, M) ==
   CASE c = "C13_Stack" -> e.call = "restore"
@@ -127,7 +130,7 @@ Ante(c, e, M) ==
     [] c = "C13_Pivot" -> e.call \in PivotedCalls /\ e.out = "ok" /\ e.pv.has
     [] c = "C13_Matrix" -> M.exact /\ e.call \in ChainCalls
     [] c = "C13_Angle" -> e.call = "rotate" /\ e.out = "ok" /\ IdLin(O.obs)
-    [] c = "C13_Scale" -> e.call = "scale" /\ e.out = "ok" /\ HasFactors(e) /\ IdLin(O.obs)
+    [] c = "C13_Scale" -> e.call = "scale" /\ e.out = "ok" /\ HasFactors(e) /\ IdLin0(O.obs)
     [] OTHER -> TRUE
 
 Init ==
